@@ -107,3 +107,42 @@ pub fn random_presentations(seed: u64, count: usize) -> Vec<Pres> {
         })
         .collect()
 }
+
+/// Presentations of tiny groups that make coset enumeration build a large table and then collapse it
+/// almost completely at the very end, plus variants with redundant generators (c = word in a, b) and
+/// infinite groups with a trivial generator.
+pub fn hostile_presentations(seed: u64, count: usize) -> Vec<(String, Pres)> {
+    let mut rng = crate::rng::Rng::stream(seed, 0x9c1);
+    let pw = |w: &[i64], k: usize| -> Word { let mut r = vec![]; for _ in 0..k { r.extend_from_slice(w); } r };
+    let mut out: Vec<(String, Pres)> = vec![];
+    for k in 3..=17usize {
+        out.push((format!("<a,b | a^{}, b^2, (ab)^2, (ab^-1)^3>", k), Pres { ngens: 2, rels: vec![pw(&[1], k), pw(&[2], 2), pw(&[1, 2], 2), pw(&[1, -2], 3)] }));
+        out.push((format!("<a,b | a^{}, b^3, (ab)^2, (a^2 b)^2>", k), Pres { ngens: 2, rels: vec![pw(&[1], k), pw(&[2], 3), pw(&[1, 2], 2), pw(&[1, 1, 2], 2)] }));
+    }
+    // Z and Z^2 with a trivial or redundant generator
+    out.push(("<a,b | b> = Z".into(), Pres { ngens: 2, rels: vec![vec![2]] }));
+    out.push(("<a,b,c | b, aca^-1c^-1> = Z^2".into(), Pres { ngens: 3, rels: vec![vec![2], vec![1, 3, -1, -3]] }));
+    // triangle-like presentations with one extra random relator (usually a big collapse)
+    while out.len() < count / 2 {
+        let (l, m, n) = (2 + rng.below(5), 2 + rng.below(5), 2 + rng.below(6));
+        let len = 3 + rng.below(6);
+        let extra: Word = crate::oracle::groups::reduce(&(0..len).map(|_| { let g = rng.range(1, 2); if rng.chance(1, 2) { g } else { -g } }).collect::<Word>());
+        out.push((format!("triangle-like ({},{},{}) + random relator", l, m, n), Pres { ngens: 2, rels: vec![pw(&[1], l), pw(&[2], m), pw(&[1, 2], n), extra] }));
+    }
+    // corpus groups with a redundant generator c = w(a,b)
+    let base = corpus();
+    while out.len() < count {
+        let g = &base[rng.below(base.len())];
+        if g.pres.ngens != 2 {
+            continue;
+        }
+        let len = 1 + rng.below(4);
+        let w: Word = crate::oracle::groups::reduce(&(0..len).map(|_| { let x = rng.range(1, 2); if rng.chance(1, 2) { x } else { -x } }).collect::<Word>());
+        let mut rels = g.pres.rels.clone();
+        let mut r = vec![-3];
+        r.extend_from_slice(&w);
+        rels.push(r);
+        out.push((format!("{} + redundant generator c = {:?}", g.name, w), Pres { ngens: 3, rels }));
+    }
+    out
+}
